@@ -16,8 +16,16 @@ def gen_case(rng):
     caps = rng.sample(["x", "y", "z"], rng.randint(0, 3))
     free = rng.sample(["p", "q"], rng.randint(0, 2))
     params = rng.sample(["x", "a", "q"], rng.randint(0, 2))
+    shape = rng.random()
+    plist_txt = None
+    if shape < 0.25 and params:
+        # the lambda's own &optional / &rest parameters, possibly named like captured variables, are resolved at call time
+        k = rng.randint(0, len(params))
+        extra = rng.choice([n for n in ["x", "y", "z", "q"] if n not in params])
+        plist_txt = " ".join(params[:k] + (["&optional"] + params[k:] if params[k:] and rng.random() < 0.5 else params[k:]) + ["&rest", extra])
+        params = params + [extra] + ([] if rng.random() < 0.5 else ["_more"])      # one or two values for the &rest parameter
     uses = []
-    pool = caps + free + params + ["x"]
+    pool = caps + free + [p for p in params if p != "_more"] + ["x"]
     for _ in range(rng.randint(1, 4)):
         v = rng.choice(pool)
         k = rng.choice(["plain", "arith", "list", "quoted", "bq", "dotted", "let", "inner", "setq", "setqret", "cond",
@@ -48,7 +56,7 @@ def gen_case(rng):
         elif k == "setqret": uses.append("(progn (setq %s (cons 'k %s)) %s)" % (v, v, v))
         else: uses.append("(cond ((null %s) 'nul) (t %s))" % (v, v))
     body = "(list %s)" % " ".join(uses)
-    lam = "(lambda (%s) %s)" % (" ".join(params), body)
+    lam = "(lambda (%s) %s)" % (plist_txt if plist_txt else " ".join(params), body)
     how = rng.choice(["let", "let*", "param", "global", "let-nested", "two"])
     binds = " ".join("(%s %s)" % (v, rng.choice(["1", "2", "'c", "'(l)"])) for v in caps) or "(dummy 0)"
     if how in ("let", "let*"):
